@@ -28,7 +28,7 @@ if hasattr(sys, "set_int_max_str_digits"):
     sys.set_int_max_str_digits(0)
 
 MAX_DRAIN = 40
-_native_classes: dict = {}
+_native_classes: dict = {"H": ["v", "seq"], "IC": ["v", "items"]}
 
 
 def show(v, depth=0, seen=None):
@@ -401,6 +401,21 @@ def _quiet_call(local, call):
     return [first[:3], last[:3]] if len(oev) > 1 else [first[:3]]
 
 
+def _trackable(v):
+    """Objects whose reference count is meaningful: never immortal / cached / interned ones."""
+    t = type(v)
+    if v is None or t is bool or t is float or t is bytes:
+        return False
+    if t is int:
+        # ints that fit a tagged short int are unboxed/re-boxed by compiled code (documented: identity not preserved)
+        return v >= (1 << 62) or v < -(1 << 62)
+    if t is str:
+        return v.startswith("tracked-")
+    if t is tuple:
+        return False  # fixed-length tuples are unboxed too
+    return not isinstance(v, type) and not callable(v) or isinstance(v, H)
+
+
 def _refs(local, names):
     out = []
     for n in names:
@@ -428,7 +443,9 @@ def measure(ns, call, fail_at=None, reps=0):
     se = run_setup(local, call.get("setup", []))
     if se:
         return {"setup": se}
-    names = call.get("tracked", [])
+    names = call.get("tracked")
+    if names is None:
+        names = sorted(n for n in local if n not in ns and _trackable(local[n]))
     gc.collect()
     rc0 = _refs(local, names)
     TICK.reset(fail_at)
@@ -438,7 +455,7 @@ def measure(ns, call, fail_at=None, reps=0):
     TICK.reset(None)
     gc.collect()
     rc1 = _refs(local, names)
-    rec = {"oc": oc, "d1": [None if a is None or b is None else b - a for a, b in zip(rc0, rc1)], "ticks": ticks}
+    rec = {"oc": oc, "names": names, "d1": [None if a is None or b is None else b - a for a, b in zip(rc0, rc1)], "ticks": ticks}
     if fail_at is None:
         rec["log"] = log[:60]
     if reps:
